@@ -149,12 +149,13 @@ Lemma CmpFrame_refl a : AInv a → CmpFrame a a.
 Proof. intros HA. split; [done|]. split; [reflexivity|]. split; [done|]. split; [done|]. apply HA. Qed.
 
 Theorem f_le_spec hu hv a r a' u v :
-  AInv a → handles a !! hu = Some u → handles a !! hv = Some v →
+  AInv a → max_nodes (mgr a) = None →
+  handles a !! hu = Some u → handles a !! hv = Some v →
   f_le hu hv a = (r, a') →
   CmpFrame a a' ∧
   ∃ b, r = Ok b ∧ (b = true ↔ ∀ ρ, denv (mgr a) u ρ = true → denv (mgr a) v ρ = true).
 Proof.
-  intros HA Eu Ev. pose proof HA as (HI&Hl&HC&Hv&Hf). unfold f_le.
+  intros HA Hmx Eu Ev. pose proof HA as (HI&Hl&HC&Hv&Hf). unfold f_le.
   rewrite node_of_bind, Eu, node_of_bind, Ev.
   pose proof (Hv _ _ Eu) as Hu0. pose proof (Hv _ _ Ev) as Hv0.
   set (L := hledger a) in *.
@@ -178,9 +179,11 @@ Proof.
   destruct (lift_G _ a2 _ ro a3 (tsafe_apply _ _ _ _) G2 E3) as (G3&M3&R3).
   rewrite (apply_or_run _ v n Hv2 Hn2) in R3.
   pose proof G2 as (HI2&Hl2&_).
+  assert (Hmx2 : max_nodes (mgr a2) = None).
+  { destruct M2 as (_&_&_&->). by destruct M1 as (_&_&_&->). }
   apply ite_spec_off in R3 as (o&->&HI3&_&_&Ho&HoD);
-    [|done|done|by apply valid_1|done|done].
-  rewrite (bind_ok _ _ _ _ _ E3).
+    [|done|done|by apply valid_1|done|done|done].
+  rewrite (bind_ok _ _ _ _ _ (catch_run_g _ _ _ _ E3)). cbv beta iota.
   (* the value of [o], by names, over the initial manager *)
   assert (M02 : extends (mgr a) (mgr a2)) by (etrans; [apply M1|apply M2]).
   assert (HoN : ∀ ρ, denv (mgr a3) o ρ = denv (mgr a) v ρ || negb (denv (mgr a) u ρ)).
@@ -224,7 +227,7 @@ Proof.
   rewrite (bind_ok _ _ _ _ _ E8). intros [= <- <-].
   assert (M : MStep a a8).
   { repeat (eapply MStep_trans; [eassumption|]). done. }
-  destruct M as (He&Hh&Hnx). destruct G8 as (HI8&Hl8&HC8&Hv8&Hf8).
+  destruct M as (He&Hh&Hnx&_). destruct G8 as (HI8&Hl8&HC8&Hv8&Hf8).
   assert (HC8' : Counts (mgr a8) L).
   { eapply Counts_ext; [|exact HC8].
     intros k. unfold ledger_inc, ledger_dec. repeat case_decide; try done; lia. }
@@ -235,16 +238,17 @@ Proof.
 Qed.
 
 Theorem f_lt_spec hu hv a r a' u v :
-  AInv a → handles a !! hu = Some u → handles a !! hv = Some v →
+  AInv a → max_nodes (mgr a) = None →
+  handles a !! hu = Some u → handles a !! hv = Some v →
   f_lt hu hv a = (r, a') →
   CmpFrame a a' ∧
   ∃ b, r = Ok b ∧
     (b = true ↔ (∀ ρ, denv (mgr a) u ρ = true → denv (mgr a) v ρ = true) ∧
                 ∃ ρ, denv (mgr a) u ρ ≠ denv (mgr a) v ρ).
 Proof.
-  intros HA Eu Ev. pose proof HA as (HI&_&_&Hv&_). unfold f_lt. unfold bind at 1.
+  intros HA Hmx Eu Ev. pose proof HA as (HI&_&_&Hv&_). unfold f_lt. unfold bind at 1.
   destruct (f_le hu hv a) as [rl a1] eqn:El.
-  destruct (f_le_spec hu hv a rl a1 u v HA Eu Ev El) as (HF&b&->&Hb).
+  destruct (f_le_spec hu hv a rl a1 u v HA Hmx Eu Ev El) as (HF&b&->&Hb).
   destruct b.
   - unfold bind at 1. rewrite f_eq_run.
     destruct HF as (HA1&He&Hh&Hn&HC). rewrite Hh, Eu, Ev. intros [= <- <-].
@@ -257,29 +261,31 @@ Proof.
 Qed.
 
 Theorem le_returns w hu hv a r a' u v :
-  AInv a → handles a !! hu = Some u → handles a !! hv = Some v →
+  AInv a → max_nodes (mgr a) = None →
+  handles a !! hu = Some u → handles a !! hv = Some v →
   run_aop w (ALe hu hv) a = (r, a') →
   CmpFrame a a' ∧
   ∃ b, r = Ok (VB b) ∧
     (b = true ↔ ∀ ρ, denv (mgr a) u ρ = true → denv (mgr a) v ρ = true).
 Proof.
-  intros HA Eu Ev. cbn [run_aop]. unfold bind at 1.
+  intros HA Hmx Eu Ev. cbn [run_aop]. unfold bind at 1.
   destruct (f_le hu hv a) as [rl a1] eqn:El.
-  destruct (f_le_spec hu hv a rl a1 u v HA Eu Ev El) as (HF&b&->&Hb).
+  destruct (f_le_spec hu hv a rl a1 u v HA Hmx Eu Ev El) as (HF&b&->&Hb).
   intros [= <- <-]. split; [done|]. by exists b.
 Qed.
 
 Theorem lt_returns w hu hv a r a' u v :
-  AInv a → handles a !! hu = Some u → handles a !! hv = Some v →
+  AInv a → max_nodes (mgr a) = None →
+  handles a !! hu = Some u → handles a !! hv = Some v →
   run_aop w (ALt hu hv) a = (r, a') →
   CmpFrame a a' ∧
   ∃ b, r = Ok (VB b) ∧
     (b = true ↔ (∀ ρ, denv (mgr a) u ρ = true → denv (mgr a) v ρ = true) ∧
                 ∃ ρ, denv (mgr a) u ρ ≠ denv (mgr a) v ρ).
 Proof.
-  intros HA Eu Ev. cbn [run_aop]. unfold bind at 1.
+  intros HA Hmx Eu Ev. cbn [run_aop]. unfold bind at 1.
   destruct (f_lt hu hv a) as [rl a1] eqn:El.
-  destruct (f_lt_spec hu hv a rl a1 u v HA Eu Ev El) as (HF&b&->&Hb).
+  destruct (f_lt_spec hu hv a rl a1 u v HA Hmx Eu Ev El) as (HF&b&->&Hb).
   intros [= <- <-]. split; [done|]. by exists b.
 Qed.
 
@@ -316,7 +322,7 @@ Lemma DSt_decref s L u r s' : DSt s L → valid s u → 0 < L (absn u) →
   r = Ok tt ∧ DSt s' (ledger_dec L (absn u)) ∧ extends s s' ∧ last_len s' = last_len s.
 Proof.
   intros (HI&Hr&Ht&HC) Hu HL E.
-  destruct (decref_total _ _ _ _ HI E) as (HI'&He&(Fl&Fr&_&Ft)&Hok&_).
+  destruct (decref_total _ _ _ _ HI E) as (HI'&He&(Fl&Fr&_&Ft&_)&Hok&_).
   destruct (Hok Hu) as [-> HC']. split; [done|]. split; [|by split].
   split; [done|]. split; [congruence|]. split; [congruence|]. by apply HC'.
 Qed.
@@ -334,12 +340,13 @@ Definition CmpFrameD (a a' : ast) : Prop :=
   (is_Some (last_len (mgr a)) → is_Some (last_len (mgr a'))).
 
 Theorem f_le_dyn hu hv a r a' u v :
-  AInvDT a → handles a !! hu = Some u → handles a !! hv = Some v →
+  AInvDT a → max_nodes (mgr a) = None →
+  handles a !! hu = Some u → handles a !! hv = Some v →
   f_le hu hv a = (r, a') →
   CmpFrameD a a' ∧
   ∃ b, r = Ok b ∧ (b = true ↔ ∀ ρ, denv (mgr a) u ρ = true → denv (mgr a) v ρ = true).
 Proof.
-  intros HA Eu Ev. pose proof HA as ((HI&Hr&HC&Hv&Hf)&Ht). unfold f_le.
+  intros HA Hmx Eu Ev. pose proof HA as ((HI&Hr&HC&Hv&Hf)&Ht). unfold f_le.
   rewrite node_of_bind, Eu, node_of_bind, Ev.
   pose proof (Hv _ _ Eu) as Hu0. pose proof (Hv _ _ Ev) as Hv0.
   set (L := hledger a) in *.
@@ -361,11 +368,11 @@ Proof.
   pose proof D2 as (HI2&Hr2&Ht2&HC2).
   assert (Kn : heldn L2 (absn n)).
   { right. unfold L2, ledger_inc. rewrite decide_True by done. lia. }
-  destruct (apply_notape s2 L2 HI2 HC2 Hr2 Ht2 "or" v (Some n) None ro s3
+  destruct (apply_notape s2 L2 HI2 HC2 Hr2 Ht2 Hmx "or" v (Some n) None ro s3
               (fun x y _ => x || y) or_in_vocab eq_refl Hv0 Hn0 I eq_refl
               (Hheld _ _ Ev) Kn I E3)
     as ((o&->&HI3&HC3&Hr3&Hl3a&Hl3b&[_ Hk3]&Ho&HoD)&Ht3).
-  rewrite (bind_ok _ _ _ _ _ (lift_run _ a2 _ _ E3)).
+  rewrite (bind_ok _ _ _ _ _ (catch_run_g _ _ _ _ (lift_run _ a2 _ _ E3))). cbv beta iota.
   set (a3 := a2 <| mgr := s3 |>).
   assert (HoN : ∀ ρ, denv s3 o ρ = denv (mgr a) v ρ || negb (denv (mgr a) u ρ)).
   { intros ρ. rewrite HoD. cbn [odenv]. unfold s2.
@@ -428,16 +435,17 @@ Proof.
 Qed.
 
 Theorem f_lt_dyn hu hv a r a' u v :
-  AInvDT a → handles a !! hu = Some u → handles a !! hv = Some v →
+  AInvDT a → max_nodes (mgr a) = None →
+  handles a !! hu = Some u → handles a !! hv = Some v →
   f_lt hu hv a = (r, a') →
   CmpFrameD a a' ∧
   ∃ b, r = Ok b ∧
     (b = true ↔ (∀ ρ, denv (mgr a) u ρ = true → denv (mgr a) v ρ = true) ∧
                 ∃ ρ, denv (mgr a) u ρ ≠ denv (mgr a) v ρ).
 Proof.
-  intros HA Eu Ev. pose proof HA as ((HI&_&_&Hv&_)&_). unfold f_lt. unfold bind at 1.
+  intros HA Hmx Eu Ev. pose proof HA as ((HI&_&_&Hv&_)&_). unfold f_lt. unfold bind at 1.
   destruct (f_le hu hv a) as [rl a1] eqn:El.
-  destruct (f_le_dyn hu hv a rl a1 u v HA Eu Ev El) as (HF&b&->&Hb).
+  destruct (f_le_dyn hu hv a rl a1 u v HA Hmx Eu Ev El) as (HF&b&->&Hb).
   destruct b.
   - unfold bind at 1. rewrite f_eq_run.
     pose proof HF as (_&_&Hh&_). rewrite Hh, Eu, Ev. intros [= <- <-].
@@ -450,28 +458,30 @@ Proof.
 Qed.
 
 Theorem le_returns_dyn w hu hv a r a' u v :
-  AInvDT a → handles a !! hu = Some u → handles a !! hv = Some v →
+  AInvDT a → max_nodes (mgr a) = None →
+  handles a !! hu = Some u → handles a !! hv = Some v →
   run_aop w (ALe hu hv) a = (r, a') →
   CmpFrameD a a' ∧
   ∃ b, r = Ok (VB b) ∧
     (b = true ↔ ∀ ρ, denv (mgr a) u ρ = true → denv (mgr a) v ρ = true).
 Proof.
-  intros HA Eu Ev. cbn [run_aop]. unfold bind at 1.
+  intros HA Hmx Eu Ev. cbn [run_aop]. unfold bind at 1.
   destruct (f_le hu hv a) as [rl a1] eqn:El.
-  destruct (f_le_dyn hu hv a rl a1 u v HA Eu Ev El) as (HF&b&->&Hb).
+  destruct (f_le_dyn hu hv a rl a1 u v HA Hmx Eu Ev El) as (HF&b&->&Hb).
   intros [= <- <-]. split; [done|]. by exists b.
 Qed.
 
 Theorem lt_returns_dyn w hu hv a r a' u v :
-  AInvDT a → handles a !! hu = Some u → handles a !! hv = Some v →
+  AInvDT a → max_nodes (mgr a) = None →
+  handles a !! hu = Some u → handles a !! hv = Some v →
   run_aop w (ALt hu hv) a = (r, a') →
   CmpFrameD a a' ∧
   ∃ b, r = Ok (VB b) ∧
     (b = true ↔ (∀ ρ, denv (mgr a) u ρ = true → denv (mgr a) v ρ = true) ∧
                 ∃ ρ, denv (mgr a) u ρ ≠ denv (mgr a) v ρ).
 Proof.
-  intros HA Eu Ev. cbn [run_aop]. unfold bind at 1.
+  intros HA Hmx Eu Ev. cbn [run_aop]. unfold bind at 1.
   destruct (f_lt hu hv a) as [rl a1] eqn:El.
-  destruct (f_lt_dyn hu hv a rl a1 u v HA Eu Ev El) as (HF&b&->&Hb).
+  destruct (f_lt_dyn hu hv a rl a1 u v HA Hmx Eu Ev El) as (HF&b&->&Hb).
   intros [= <- <-]. split; [done|]. by exists b.
 Qed.
